@@ -415,6 +415,19 @@ def _semantic_checks_update_at(exprs_in, exprs_out, invocation):
             message="The first input and output expressions must have the same set of axes in brackets.\n%EXPR%",
         )
 
+    # Ensure that all (non-unitary) vectorized axes of the first input expression appear in the output expression
+    tensor_vec_axisnames = {
+        expr.name for expr in tensor_expr.nodes() if isinstance(expr, stage3.Axis) and not stage3.is_in_brackets(expr) and expr.value != 1
+    }
+    output_vec_axisnames = {expr.name for expr in expr_out.nodes() if isinstance(expr, stage3.Axis) and not stage3.is_in_brackets(expr)}
+    missing_axisnames = tensor_vec_axisnames - output_vec_axisnames
+    if len(missing_axisnames) > 0:
+        raise SemanticError(
+            invocation=invocation,
+            pos=invocation.indicator.get_pos_for_axisnames(all_exprs, missing_axisnames),
+            message=f"The axes {missing_axisnames} of the first input expression must appear in the output expression.\n%EXPR%",
+        )
+
     # Ensure that at most one axis is marked in each coordinate expression (aside from reduced axes that are also marked in updates)
     for coord_expr in coords_exprs:
         marked_axisnames = {expr.name for expr in coord_expr.nodes() if isinstance(expr, stage3.Axis) and stage3.is_in_brackets(expr)}
